@@ -1,4 +1,5 @@
 import Driver.Common
+import Driver.Views
 import Parsley.Model.Filters
 import Parsley.Spec.Filters
 import Parsley.Spec.DeflateFixed
@@ -34,7 +35,44 @@ import Parsley.Model.Loader
   Only <dictser> and <contenthex> reach the implementation and the model.  The judge rebuilds
   dictionary and content from the recipe with the *spec-side* encoders, checks that they are
   what the case carries, and derives the expected outcome from the recipe alone.
+
+  view variant :  vw <steps> <prehex> <sufhex> <headhex> <tailhex> <case as above>
+    The stream OBJECT written as text - <headhex> = `n g obj <<dictionary>> stream EOL`, then <contenthex>, then
+    <tailhex> = `EOL endstream endobj` - is a WINDOW of the one allocation <prehex> ++ window ++ <sufhex>, selected
+    by a chain of RestrictView / RestrictViewFrom steps (Driver/Views.lean).  The implementation parses the object on
+    that view (parse_pdf_indirect_obj, as the crate does on a file) and decodes the StreamT it obtains: dictionary and
+    content come from the view.  Output `<output as above> @ <content start> <content size> <cursor>`; the unchanged
+    code reports all three as cursors of the view it was given (start = |head|, size = |content|, cursor = |window|).
+    The model parses the WINDOW's bytes alone (the C05 model `parseIndirect`, then `decodeStream`); the oracle checks
+    that head and tail are the spec-side rendering of <dictser> (`renderHead` / `renderTail`, one of six styles),
+    judges the decoder's output from the recipe exactly as in the plain case and requires the three cursors.  That a view
+    behaves like a buffer holding a copy of its window is Parsley.C17.view_refines_copy.  Classes of rejected view
+    cases are prefixed `view-`.
+    kind `cut` (view cases only, `vw … <cut text> - cut - - -`): the window is a strict prefix of such an object text,
+    the rest lying behind it: the object must be rejected (`perr`).
 -/
+namespace Driver.C06View
+open Parsley Parsley.Prim Parsley.Obj Parsley.Indirect
+
+/-- the stream object a window holds, as the C05 model of `parse_pdf_indirect_obj` reads it (fresh context,
+    depth bound 50): dictionary, content, content start, content size, cursor afterwards -/
+inductive Parsed where
+  | stream (kvs : List (Bytes × Obj)) (content : Bytes) (start size cursor : Nat)
+  | notStream (cursor : Nat)
+  | err (kind : String) (cursor : Nat)
+  | panic (site : String)
+
+def parseStreamObj (w : Bytes) : Parsed :=
+  match (parseIndirect (Ctx.new 50) w 0).1 with
+  | (.ok v, k) =>
+    match v.val.obj.val with
+    | .stream kvs sc => .stream kvs sc.content sc.start sc.size k
+    | _ => .notStream k
+  | (.err e, k) => .err s!"{e}" k
+  | (.panic p, _) => .panic p
+
+end Driver.C06View
+
 namespace Driver.C06
 open Parsley Parsley.Filters Driver
 
@@ -122,13 +160,38 @@ def showOut : Res (Bytes × Dict) → String
   | .err k => s!"err {k}"
   | .panic m => s!"panic {m}"
 
-def model (line : String) : String :=
+def modelPlain (line : String) : String :=
   match words line with
   | [_, _, ds, hex] =>
     match parseDict ds, bytesOfHex hex with
     | some d, some c => showOut (decodeStream ext d c)
     | _, _ => "bad-case"
   | _ => "bad-case"
+
+/-- the window of a view case: head ++ content ++ tail -/
+def winOf : List String → Option Bytes
+  | [head, tail, _, _, _, hex] =>
+    match bytesOfHex head, bytesOfHex hex, bytesOfHex tail with
+    | some h, some c, some t => some (h ++ c ++ t)
+    | _, _, _ => none
+  | _ => none
+
+/-- a view case: the object is parsed from the window's bytes, what was parsed is decoded -/
+def modelView (inner : String) : String :=
+  match winOf (words inner) with
+  | none => "bad-case"
+  | some w =>
+    match C06View.parseStreamObj w with
+    | .stream kvs content start size k => s!"{showOut (decodeStream ext (Loader.toFKvs kvs) content)} @ {start} {size} {k}"
+    | .notStream k => s!"notstream {k}"
+    | .err e k => s!"perr {e} {k}"
+    | .panic p => s!"panic {p}"
+
+def model (line : String) : String :=
+  match Views.split winOf line with
+  | .plain l => modelPlain l
+  | .view l => modelView l
+  | .fault f => f
 
 /-! ### recipes (spec side) -/
 
@@ -576,7 +639,7 @@ def caseOf (kind : String) (r : Recipe) : String :=
 def specPrune (d : Dict) : Dict :=
   d.filter fun kv => kv.1 != strBytes "Filter" && kv.1 != strBytes "DecodeParms"
 
-def judge (case impl : String) : String :=
+def judgePlain (case impl : String) : String :=
   let impl := impl.trimAscii.toString
   let iw := words impl
   if iw.head? == some "panic" || (impl.startsWith "crash") then s!"bad panic {impl.take 80}" else
@@ -632,6 +695,156 @@ def judge (case impl : String) : String :=
         | .okOrGuard => if impl == okLine || impl == "err guard" then "ok" else s!"bad shape expected payload or err guard, got {impl.take 60}"
   | _ => "bad-case"
 
+/-! ### the stream object as text (spec side of the view cases) -/
+
+def alnum (b : UInt8) : Bool := (48 ≤ b && b ≤ 57) || (65 ≤ b && b ≤ 90) || (97 ≤ b && b ≤ 122)
+def hexLower (n : Nat) : UInt8 := UInt8.ofNat (if n < 10 then 48 + n else 87 + n)
+def hex2 (b : UInt8) : Bytes := [hexLower (b.toNat / 16), hexLower (b.toNat % 16)]
+
+/-- `/name`, every byte that is not a letter or digit as `#hh` -/
+def renderName (n : Bytes) : Bytes := 47 :: n.flatMap fun b => if alnum b then [b] else 35 :: hex2 b
+
+/-- one spelling per object: numbers in decimal, strings as hex strings, the uninspected object as the real `3.0`,
+    one space between the elements of arrays and dictionaries -/
+partial def renderObj : Obj → Bytes
+  | .null => strBytes "null"
+  | .bool b => strBytes (if b then "true" else "false")
+  | .int i => strBytes (toString i)
+  | .name n => renderName n
+  | .str s => [60] ++ s.flatMap hex2 ++ [62]
+  | .ref n g => strBytes s!"{n} {g} R"
+  | .arr l => [91] ++ ((l.map renderObj).intersperse [32]).flatten ++ [93]
+  | .dict d => strBytes "<<" ++ ((d.map fun (k, v) => renderName k ++ [32] ++ renderObj v).intersperse [32]).flatten ++ strBytes ">>"
+  | .other => strBytes "3.0"
+
+def viewStyles : Nat := 6
+
+/-- `n g obj <<dictionary>> stream EOL` in one of six styles (object identifier, white space, comment, the two
+    legal end-of-line markers after `stream`) -/
+def renderHead (style : Nat) (d : Dict) : Bytes :=
+  let dict := renderObj (.dict d)
+  match style % viewStyles with
+  | 0 => strBytes "1 0 obj\n" ++ dict ++ strBytes "\nstream\n"
+  | 1 => strBytes "1 0 obj " ++ dict ++ strBytes " stream\r\n"
+  | 2 => strBytes "12 0 obj" ++ dict ++ strBytes "stream\n"
+  | 3 => strBytes "\n%c\n7 1 obj\n" ++ dict ++ strBytes "\r\nstream\r\n"
+  | 4 => strBytes "1 0 obj" ++ dict ++ strBytes "stream\n"
+  | _ => strBytes " 3 0 obj " ++ dict ++ strBytes "\n\nstream\n"
+
+/-- `EOL endstream endobj` (style 4: no end-of-line marker in front of `endstream`) -/
+def renderTail (style : Nat) : Bytes :=
+  match style % viewStyles with
+  | 0 => strBytes "\nendstream\nendobj"
+  | 1 => strBytes "\r\nendstream endobj"
+  | 2 => strBytes "\nendstream\rendobj"
+  | 3 => strBytes "\nendstream\n\nendobj"
+  | 4 => strBytes "endstream endobj"
+  | _ => strBytes "\rendstream\r\nendobj"
+
+def kLength : Bytes := strBytes "Length"
+
+/-- does the dictionary declare, directly, the length `n`? -/
+def declares (d : Dict) (n : Nat) : Bool :=
+  match lookup kLength d with
+  | some (.int i) => i == (n : Int)
+  | _ => false
+
+/-- view cases: see the head of the file -/
+def judgeView (inner impl : String) : String :=
+  let impl := impl.trimAscii.toString
+  match words inner with
+  | [head, tail, kind, mta, ds, hex] =>
+    if kind == "cut" then
+      if impl.startsWith "perr " then "ok"
+      else if impl.startsWith "panic" || impl.startsWith "crash" then s!"bad panic {impl.take 80}"
+      else s!"bad cut-accepted an object whose text ends behind the view was accepted: {impl.take 60}"
+    else
+    match bytesOfHex head, bytesOfHex tail, parseDict ds, bytesOfHex hex with
+    | some h, some t, some d, some c =>
+      if !declares d c.length then "bad-case the dictionary does not declare the content's length"
+      else if !((List.range viewStyles).any fun st => h == renderHead st d && t == renderTail st) then
+        "bad-case head / tail are not the rendering of the dictionary"
+      else
+        if impl.startsWith "panic" || impl.startsWith "crash" then s!"bad panic {impl.take 80}" else
+        match impl.splitOn " @ " with
+        | [out, pos] =>
+          match judgePlain s!"{kind} {mta} {ds} {hex}" out with
+          | "ok" | "skip" =>
+            if pos == s!"{h.length} {c.length} {h.length + c.length + t.length}" then "ok"
+            else s!"bad cursors content start / size / cursor {pos}, expected {h.length} {c.length} {h.length + c.length + t.length}"
+          | v => v
+        | _ => s!"bad framing the stream object was not accepted as a stream: {impl.take 60}"
+    | _, _, _, _ => "bad-case"
+  | _ => "bad-case"
+
+def judge (case impl : String) : String :=
+  match Views.split winOf case with
+  | .plain l => judgePlain l impl
+  | .fault f => if f == "bad-case" then "bad-case" else s!"bad desc-mismatch the steps do not select the window ({f})"
+  | .view l =>
+    let t := impl.trimAscii.toString
+    if t == "view-error" || t == "view-mismatch" then s!"bad view {t}: the restriction does not show the window's bytes"
+    else
+      match judgeView l impl with
+      | "ok" => "ok"
+      | v => if v.startsWith "bad " then s!"bad view-{(v.toList.drop 4 |> String.ofList)}" else v
+
+/-! ### every case once more with the stream object inside a restricted view
+
+  Each case line whose dictionary declares the content's length (all recipe cases; not the `fz` cases) is followed by
+  its view twin (tier budget: of the cases with more than 2 kB of content every eighth).  Axes, cycled by the running
+  case counter `c` with pairwise coprime periods: bytes in front of the window (16: 1, 7, 11, 1000, ... of them - a file
+  header, a complete stream object and a plain object, or random bytes), chain of restrictions (7: View, From, view of
+  a view in four ways, three deep), bytes behind the window (5), and the six styles of the object text.  What lies
+  behind the window CONTINUES the scene: more encoded data of the three filters with their end-of-data markers
+  (`~>`, `>`), `endstream endobj` again, a further complete stream object - so that a reader going beyond the view's
+  end finds a longer body or a second object. -/
+
+def junkText : Bytes :=
+  strBytes "%PDF-1.7\n%\xe2\xe3\n9 0 obj\n<</Length 10 /Filter /ASCIIHexDecode>>\nstream\n48656c6c6f>\nendstream\nendobj\n8 0 obj [1 2 /N (s)] endobj\n"
+
+def sufPool : List Bytes :=
+  [strBytes "\nendstream\nendobj\n", strBytes "\n2 0 obj<</Length 2>>stream\nxx\nendstream endobj\n", strBytes "~>\nendstream endobj\n",
+   strBytes "4142>\nendstream\nendobj", strBytes "\n", strBytes "zz~>", strBytes " endobj\nxref\n0 1\n", [0x78, 0x9c, 0x03, 0x00, 0x00, 0x00, 0x00, 0x01],
+   strBytes "j\n3 0 obj<</Length 0>>stream\nendstream endobj"]
+
+def viewTwin (c : Nat) (line : String) : Option String :=
+  match words line with
+  | [kind, _, ds, hex] =>
+    if kind == "fz" then none else
+    match parseDict ds, bytesOfHex hex with
+    | some d, some content =>
+      if !declares d content.length then none
+      else if content.length > 2048 && c % 8 != 0 then none
+      else
+        let style := c % viewStyles
+        let head := renderHead style d
+        let tail := renderTail style
+        let pool := sufPool[(c / 5) % sufPool.length]?.getD []
+        let suf : Bytes := match c % 5 with | 1 => [] | _ => pool
+        some (Views.viewLine c s!"{hexOfBytes head} {hexOfBytes tail} {line}" (head.length + content.length + tail.length) junkText suf)
+    | _, _ => none
+  | _ => none
+
+/-- windows that end inside the stream object: valid objects (every style; empty, short and multi-layer contents) cut
+    at every byte, the rest of the object lying behind the window -/
+def cutWindows (emit : String → IO Unit) (full : Bool) : IO Unit := do
+  let recipes : List Recipe := [
+    { shape := 0, chain := [⟨'H', 0, 0, 0, 0⟩], payload := strBytes "Hello" },
+    { shape := 7, chain := [⟨'A', 0, 0, 0, 0⟩, ⟨'F', 1, 0, 0, 0⟩], eol := 1, payload := strBytes "abcabcabc" },
+    { shape := 12, chain := [], payload := [] },
+    { shape := 3, chain := [⟨'F', 0, 0, 0, 0⟩], eol := 2, payload := strBytes "endstream endobj" } ]
+  let mut k := 0
+  for r in recipes do
+    for style in List.range viewStyles do
+      let (c, _, ps) := r.build
+      let d := r.dictL ps c.length
+      let text := renderHead style d ++ c ++ renderTail style
+      for cut in List.range text.length do
+        k := k + 1
+        if full || k % 3 == 0 || cut + 12 ≥ text.length then
+          emit (Views.viewLine k s!"{hexOfBytes (text.take cut)} - cut - - -" cut junkText (text.drop cut))
+
 /-! ### generators -/
 
 def mkPayload (r : Rng) (n kind : Nat) : Bytes × Rng :=
@@ -663,8 +876,17 @@ def randChain (r : Rng) (len : Nat) (allowU : Bool) : List Layer × Rng :=
     let (ls, r) := randChain r n allowU
     (l :: ls, r)
 
-def gen (seed n : Nat) (tier : String) (emit : String → IO Unit) : IO Unit := do
+def gen (seed n : Nat) (tier : String) (emit0 : String → IO Unit) : IO Unit := do
   let thorough := tier == "thorough"
+  -- every case is followed by its view twin (see `viewTwin`)
+  let ctr ← IO.mkRef 0
+  let emit (line : String) : IO Unit := do
+    emit0 line
+    let c ← ctr.modifyGet fun c => (c, c + 1)
+    match viewTwin c line with
+    | some l => emit0 l
+    | none => pure ()
+  cutWindows emit0 thorough
   -- 1. exhaustive small: every chain of length ≤ 2 (3 in thorough) over {H,A,F} x boundary payload lengths x shapes
   let kinds : List Layer := [⟨'H', 3, 2, 1, 0⟩, ⟨'A', 5, 2, 0, 0⟩, ⟨'F', 0, 3, 0, 0⟩, ⟨'F', 1, 0, 0, 0⟩,
                              ⟨'F', 2, 9, 0, 0⟩, ⟨'F', 3, 4, 0, 0⟩, ⟨'F', 4, 16, 0, 0⟩]
@@ -874,7 +1096,7 @@ def gen (seed n : Nat) (tier : String) (emit : String → IO Unit) : IO Unit := 
 
 /-- non-trivial: a recipe with at least one filter layer and a non-empty payload, a rejecting
     shape, a corruption, or a real-zlib case of at least 16 bytes -/
-def nontrivial (line : String) : Bool :=
+def nontrivialPlain (line : String) : Bool :=
   match words line with
   | ["rz", p, _, _] => p.length ≥ 32
   | ["fz", _, _, _] => false
@@ -883,6 +1105,13 @@ def nontrivial (line : String) : Bool :=
     | some r => (!r.chain.isEmpty && !r.payload.isEmpty) || r.shape / 3 ≥ 5 || r.corrL != 0
     | none => false
   | _ => false
+
+/-- a view case counts when the case does and the window lies inside a larger allocation; a `cut` case always -/
+def nontrivial (line : String) : Bool :=
+  match words line with
+  | "vw" :: _ :: pre :: suf :: _ :: _ :: kind :: rest =>
+    (kind == "cut" || nontrivialPlain (" ".intercalate (kind :: rest))) && (pre != "-" || suf != "-")
+  | _ => nontrivialPlain line
 
 def driver : PropDriver := { gen, model, judge, nontrivial }
 end Driver.C06
